@@ -92,6 +92,92 @@ fn exec_inner(st: &mut St, cmd: &str) -> String {
             }
             cvec(q.verif_psi())
         }
+        "metactrl" => {
+            // C02: E.c(m) on psi, and E on the projection of psi onto "all control bits set"
+            let m: usize = toks[1].parse().unwrap();
+            let e = st.op.as_ref().expect("no op").clone();
+            let q = st.q.as_ref().expect("no qreg");
+            match e.clone().c(m) {
+                None => "refused".to_string(),
+                Some(ec) => {
+                    let mut q1 = q.clone();
+                    q1.apply(&ec);
+                    let mut q2 = q.clone();
+                    let proj: Vec<C> = q
+                        .verif_psi()
+                        .iter()
+                        .enumerate()
+                        .map(|(i, z)| if i & m == m { *z } else { C { re: 0.0, im: 0.0 } })
+                        .collect();
+                    q2.verif_set_psi(proj);
+                    q2.apply(&e);
+                    format!("ok {} {} {}", ec.act_on(), cvec(q1.verif_psi()), cvec(q2.verif_psi()))
+                }
+            }
+        }
+        "metadgr" => {
+            // C03: E then E.dgr(), E.dgr() then E; names of the dagger
+            let e = st.op.as_ref().expect("no op").clone();
+            let d = e.clone().dgr();
+            let q = st.q.as_ref().expect("no qreg");
+            let mut q1 = q.clone();
+            q1.apply(&e);
+            q1.apply(&d);
+            let mut q2 = q.clone();
+            q2.apply(&d);
+            q2.apply(&e);
+            let mut q3 = q.clone();
+            q3.apply(&(e.clone() * d.clone()));
+            format!(
+                "{} {} {} {} {}",
+                ops::names(&d),
+                d.act_on(),
+                cvec(q1.verif_psi()),
+                cvec(q2.verif_psi()),
+                cvec(q3.verif_psi())
+            )
+        }
+        "metadgrmat" => {
+            let size: usize = toks[1].parse().unwrap();
+            let e = st.op.as_ref().expect("no op").clone();
+            let d = e.clone().dgr();
+            let m1: Vec<C> = e.matrix(size).into_iter().flatten().collect();
+            let m2: Vec<C> = d.matrix(size).into_iter().flatten().collect();
+            format!("{} {}", cvec(&m1), cvec(&m2))
+        }
+        "metamul" => {
+            // C04: (E * F) vs E then F vs element by element (vs F * E)
+            let prog = ops::parse_prog(&toks[1..].join(" ")).expect("bad op program");
+            let f = match ops::build(&prog) {
+                Built::Ok(o) => o,
+                _ => return "nobuild".to_string(),
+            };
+            let e = st.op.as_ref().expect("no op").clone();
+            let q = st.q.as_ref().expect("no qreg");
+            let mut q1 = q.clone();
+            q1.apply(&(e.clone() * f.clone()));
+            let mut q2 = q.clone();
+            q2.apply(&e);
+            q2.apply(&f);
+            let mut q3 = q.clone();
+            for g in e.iter().chain(f.iter()) {
+                q3.apply(g);
+            }
+            let mut q4 = q.clone();
+            q4.apply(&(f.clone() * e.clone()));
+            let mut q5 = q.clone();
+            q5.apply(&(op::id() * e.clone() * op::id() * f.clone() * op::id()));
+            format!(
+                "{} {} {} {} {} {} {}",
+                e.act_on(),
+                f.act_on(),
+                cvec(q1.verif_psi()),
+                cvec(q2.verif_psi()),
+                cvec(q3.verif_psi()),
+                cvec(q4.verif_psi()),
+                cvec(q5.verif_psi())
+            )
+        }
         "dft" => {
             let m: usize = toks[1].parse().unwrap();
             let o = if toks[2] == "1" { op::qft_swapped(m) } else { op::qft(m) };
@@ -242,6 +328,232 @@ fn gen_ops_case(r: &mut Rng, max_n: usize, max_thr: usize, stats: &mut HashMap<S
     (format!("n={n} bits={bits}"), cmds)
 }
 
+fn leaf_kind(t: &ops::Tok) -> String {
+    match t {
+        ops::Tok::Id => "id".to_string(),
+        ops::Tok::G(k, _) => k.to_string(),
+        ops::Tok::R(k, _, _) => k.to_string(),
+        ops::Tok::U2(..) => "u2".into(),
+        ops::Tok::U3(..) => "u3".into(),
+        ops::Tok::C(_) => "c".into(),
+        ops::Tok::Dgr => "dgr".into(),
+        _ => "mul".into(),
+    }
+}
+
+fn reg_cmds(r: &mut Rng, n: usize, max_thr: usize, pad_garbage: bool) -> Vec<String> {
+    let thr = threads_choice(r, max_thr);
+    if r.chance(1, 4) {
+        vec![format!("qstate {n} {} {thr}", r.below(1usize << n))]
+    } else {
+        vec![format!("qreg {n} {thr}"), format!("setpsi {}", cvec(&rand_psi(r, n, pad_garbage)))]
+    }
+}
+
+/// C01: one constructor call, every gate kind, any mask / angle / register size.
+fn gen_c01_case(r: &mut Rng, max_n: usize, max_thr: usize, stats: &mut HashMap<String, usize>) -> (String, Vec<String>) {
+    let n = r.range(0, max_n);
+    let all = (1usize << n) - 1;
+    let cfg = GenCfg { bits: n, max_depth: 0, bad_permille: 80 };
+    let mut leaf = ops::gen_leaf(r, &cfg, all);
+    // qft belongs to C15
+    while matches!(leaf, ops::Tok::G("qft", _) | ops::Tok::G("qfts", _)) {
+        leaf = ops::gen_leaf(r, &cfg, all);
+    }
+    *stats.entry(format!("kind.{}", leaf_kind(&leaf))).or_default() += 1;
+    *stats.entry(format!("n.{n}")).or_default() += 1;
+    let prog = vec![leaf];
+    let mut cmds = vec![format!("op {}", ops::prog_text(&prog))];
+    if let Built::Ok(o) = ops::build(&prog) {
+        cmds.extend(reg_cmds(r, n, max_thr, false));
+        cmds.push("apply".into());
+        let act = o.act_on();
+        for size in 0..=3usize {
+            if act < (1usize << size) && r.chance(2, 3) {
+                cmds.push(format!("matrix {size}"));
+                break;
+            }
+        }
+    } else {
+        *stats.entry("refusals".into()).or_default() += 1;
+    }
+    (format!("n={n}"), cmds)
+}
+
+const ANGLES3: [f64; 3] = [0.7, -2.0943951023931953, 7.3];
+
+/// C01 small scope, exhaustive: every gate kind x every mask x every basis state, n <= max_n.
+fn c01x_cases(max_n: usize) -> Vec<(usize, ops::Tok)> {
+    let mut v = Vec::new();
+    for n in 0..=max_n {
+        let all = 1usize << n;
+        for m in 0..all {
+            let pc = m.count_ones();
+            for k in ["x", "y", "z", "s", "t", "h"] {
+                v.push((n, ops::Tok::G(k, m)));
+            }
+            for a in ANGLES3 {
+                if pc <= 2 {
+                    for k in ["rx", "ry", "rz", "u1"] {
+                        v.push((n, ops::Tok::R(k, a, m)));
+                    }
+                    v.push((n, ops::Tok::U2(a, 1.1, m)));
+                    v.push((n, ops::Tok::U3(a, -0.4, 2.5, m)));
+                }
+                if pc >= 1 && pc <= 3 {
+                    for k in ["rxx", "ryy", "rzz"] {
+                        v.push((n, ops::Tok::R(k, a, m)));
+                    }
+                }
+            }
+            if pc >= 1 && pc <= 3 {
+                for k in ["swap", "sqrt_swap", "i_swap", "sqrt_i_swap"] {
+                    v.push((n, ops::Tok::G(k, m)));
+                }
+            }
+        }
+    }
+    v
+}
+
+fn gen_c01x_case(item: &(usize, ops::Tok), stats: &mut HashMap<String, usize>) -> (String, Vec<String>) {
+    let (n, leaf) = item;
+    *stats.entry(format!("kind.{}", leaf_kind(leaf))).or_default() += 1;
+    let prog = vec![leaf.clone()];
+    let mut cmds = vec![format!("op {}", ops::prog_text(&prog))];
+    if let Built::Ok(_) = ops::build(&prog) {
+        for s in 0..(1usize << n) {
+            cmds.push(format!("qstate {n} {s} 1"));
+            cmds.push("apply".into());
+        }
+        if *n <= 3 {
+            cmds.push(format!("matrix {n}"));
+        }
+    }
+    (format!("n={n} exhaustive"), cmds)
+}
+
+/// C02: E.c(m) against E on the control subspace.
+fn gen_c02_case(r: &mut Rng, max_n: usize, max_thr: usize, stats: &mut HashMap<String, usize>) -> (String, Vec<String>) {
+    let n = r.range(1, max_n.max(1));
+    let all = (1usize << n) - 1;
+    let cfg = GenCfg { bits: n, max_depth: 2, bad_permille: 0 };
+    let mut prog;
+    loop {
+        let d0 = if r.chance(1, 2) { 2 } else { 0 };
+        prog = ops::gen_prog(r, &cfg, d0);
+        if let Built::Ok(_) = ops::build(&prog) {
+            break;
+        }
+    }
+    let act = match ops::build(&prog) {
+        Built::Ok(o) => o.act_on(),
+        _ => 0,
+    };
+    let free = all & !act;
+    let overlap = r.chance(1, 8) || free == 0;
+    let m = if overlap {
+        r.submask(all) | if act != 0 && r.chance(1, 2) { r.kbits(act, 1).unwrap() } else { 0 }
+    } else {
+        let k = r.range(1, 3.min(free.count_ones() as usize));
+        r.kbits(free, k).unwrap()
+    };
+    *stats.entry(format!("ctrlbits.{}", m.count_ones())).or_default() += 1;
+    *stats.entry(if m & act != 0 { "overlap".into() } else { "disjoint".to_string() }).or_default() += 1;
+    for t in &prog {
+        *stats.entry(format!("tok.{}", leaf_kind(t))).or_default() += 1;
+    }
+    let mut cmds = vec![format!("op {}", ops::prog_text(&prog))];
+    cmds.extend(reg_cmds(r, n, max_thr, false));
+    cmds.push(format!("metactrl {m}"));
+    // the controlled operator as a program of its own: refusal, reported support, second control
+    let mut p2 = prog.clone();
+    p2.push(ops::Tok::C(m));
+    if r.chance(1, 2) {
+        let m2 = if r.chance(1, 4) { r.submask(all) } else { r.submask(free & !m) };
+        p2.push(ops::Tok::C(m2));
+    }
+    cmds.push(format!("op {}", ops::prog_text(&p2)));
+    (format!("n={n} act={act} ctrl={m}"), cmds)
+}
+
+/// C03: E followed by its dagger.
+fn gen_c03_case(r: &mut Rng, max_n: usize, max_thr: usize, stats: &mut HashMap<String, usize>) -> (String, Vec<String>) {
+    let n = r.range(0, max_n);
+    let cfg = GenCfg { bits: n, max_depth: 3, bad_permille: 0 };
+    let mut prog;
+    loop {
+        let d0 = if r.chance(1, 3) { 3 } else { 0 };
+        prog = ops::gen_prog(r, &cfg, d0);
+        if let Built::Ok(_) = ops::build(&prog) {
+            break;
+        }
+    }
+    for t in &prog {
+        *stats.entry(format!("tok.{}", leaf_kind(t))).or_default() += 1;
+    }
+    let o = match ops::build(&prog) {
+        Built::Ok(o) => o,
+        _ => unreachable!(),
+    };
+    *stats.entry(format!("len.{}", o.len().min(20))).or_default() += 1;
+    let mut cmds = vec![format!("op {}", ops::prog_text(&prog))];
+    cmds.extend(reg_cmds(r, n, max_thr, false));
+    cmds.push("metadgr".into());
+    for size in 0..=3usize {
+        if o.act_on() < (1usize << size) && o.len() <= 16 {
+            cmds.push(format!("metadgrmat {size}"));
+            break;
+        }
+    }
+    (format!("n={n}"), cmds)
+}
+
+/// C04: products against their factors one after another.
+fn gen_c04_case(r: &mut Rng, max_n: usize, max_thr: usize, long: bool, stats: &mut HashMap<String, usize>) -> (String, Vec<String>) {
+    let n = r.range(0, max_n);
+    let all = (1usize << n) - 1;
+    let cfg = GenCfg { bits: n, max_depth: 2, bad_permille: 0 };
+    let mut build_ok = |r: &mut Rng, within: usize| -> ops::Prog {
+        loop {
+            let c = GenCfg { bits: n, max_depth: 2, bad_permille: 0 };
+            let mut p = if within == all {
+                ops::gen_prog(r, &c, 0)
+            } else {
+                vec![ops::gen_leaf(r, &c, within)]
+            };
+            // long products
+            if long && r.chance(1, 4) {
+                let k = r.range(50, 400);
+                for _ in 0..k {
+                    p.push(ops::gen_leaf(r, &cfg, within));
+                    p.push(ops::Tok::Mul);
+                }
+            }
+            if let Built::Ok(_) = ops::build(&p) {
+                return p;
+            }
+        }
+    };
+    // sometimes force disjoint supports to exercise commutation
+    let disjoint = n >= 2 && r.chance(1, 3);
+    let (pe, pf) = if disjoint {
+        let a = r.submask(all);
+        let (a, b) = (a, all & !a);
+        (build_ok(r, a), build_ok(r, b))
+    } else {
+        (build_ok(r, all), build_ok(r, all))
+    };
+    *stats.entry(if disjoint { "disjoint".into() } else { "general".to_string() }).or_default() += 1;
+    let le = match ops::build(&pe) { Built::Ok(o) => o.len(), _ => 0 };
+    let lf = match ops::build(&pf) { Built::Ok(o) => o.len(), _ => 0 };
+    *stats.entry(format!("len.{}", ((le + lf) / 10 * 10).min(500))).or_default() += 1;
+    let mut cmds = vec![format!("op {}", ops::prog_text(&pe))];
+    cmds.extend(reg_cmds(r, n, max_thr, false));
+    cmds.push(format!("metamul {}", ops::prog_text(&pf)));
+    (format!("n={n} lens={le}+{lf}"), cmds)
+}
+
 fn gen_dft_case(r: &mut Rng, max_n: usize, max_thr: usize, stats: &mut HashMap<String, usize>) -> (String, Vec<String>) {
     let n = r.range(1, max_n.max(1));
     let all = (1usize << n) - 1;
@@ -267,10 +579,18 @@ pub fn run(suite: &str, seed: u64, count: usize, kv: &HashMap<String, String>, t
         .and_then(|s| s.parse().ok())
         .unwrap_or_else(|| rayon::current_num_threads().min(8));
     let mut root = Rng::new(seed ^ 0x5EED);
+    let exhaustive = if suite == "c01x" { c01x_cases(max_n.min(4)) } else { Vec::new() };
+    let count = if suite == "c01x" { exhaustive.len() } else { count };
+    let long = kv.get("long").map(|s| s == "1").unwrap_or(false);
     for idx in 0..count {
         let mut r = root.fork(idx as u64);
         let (tags, cmds) = match suite {
             "ops" => gen_ops_case(&mut r, max_n, max_thr, &mut stats),
+            "c01" => gen_c01_case(&mut r, max_n, max_thr, &mut stats),
+            "c01x" => gen_c01x_case(&exhaustive[idx], &mut stats),
+            "c02" => gen_c02_case(&mut r, max_n, max_thr, &mut stats),
+            "c03" => gen_c03_case(&mut r, max_n, max_thr, &mut stats),
+            "c04" => gen_c04_case(&mut r, max_n, max_thr, long, &mut stats),
             "dft" => gen_dft_case(&mut r, max_n, max_thr, &mut stats),
             other => panic!("unknown suite {other}"),
         };
